@@ -57,6 +57,20 @@ type azState struct {
 	Revoked  map[string]bool     `json:"R"`
 	Disabled map[string]bool     `json:"D"`
 	Uses     map[string]int      `json:"U"` // remaining uses of use-limited tokens (absent: unlimited)
+	// requests in flight (between their first and last check point)
+	InFl map[string]*azInFl `json:"I,omitempty"`
+}
+
+// azInFl is what a request has observed so far. A request is not atomic:
+// it looks its token up, then reads each of the token's policies, then
+// decides - each at its own moment between invocation and return. The model
+// therefore gives every request one linearization point per check (token;
+// each policy; decision), ordered token < policies < decision, all inside the
+// request's interval. "Honoured by the very next request" is untouched: a
+// request that starts after a change returned has all its points after it.
+type azInFl struct {
+	Live bool                `json:"l"`
+	Pols map[string][]azRule `json:"p,omitempty"`
 }
 
 func (s azState) key() string { b, _ := json.Marshal(s); return string(b) }
@@ -76,6 +90,9 @@ func (s azState) clone() azState {
 	if n.Uses == nil {
 		n.Uses = map[string]int{}
 	}
+	if n.InFl == nil {
+		n.InFl = map[string]*azInFl{}
+	}
 	return n
 }
 
@@ -89,6 +106,10 @@ type azIn struct {
 	Rules  []azRule
 	Target string
 	Maybe  bool // the mutation returned an error: it may or may not have taken effect
+	// requests: one history entry per check point
+	Req   string // request identity
+	Phase string // tok | pol | fin
+	Pol   string // phase pol: which policy is read
 }
 
 type azOut struct {
@@ -117,32 +138,34 @@ func matchRule(pattern, path string) bool {
 	return pattern == path
 }
 
-// azAllowed is the reference authoriser for the non-overlapping grammar.
-func azAllowed(st azState, in azIn) (allowed bool, tokenLive bool) {
-	rel := in.Path
-	if strings.HasPrefix(rel, "open/") {
-		return true, false
-	}
+// azTokenLive: the token-side conditions (existence, revocation, entity,
+// bound CIDR), evaluated at the request's token check point.
+func azTokenLive(st azState, in azIn) bool {
 	t := in.Tok
 	if t == nil {
-		return false, false
+		return false
 	}
 	if st.Revoked[t.Name] || (t.Entity != "" && st.Disabled[t.Entity]) {
-		return false, false
-	}
-	if n, limited := st.Uses[t.Name]; limited && n <= 0 {
-		return false, false
+		return false
 	}
 	if t.CIDR && !strings.HasPrefix(in.Remote, "10.") {
-		return false, false
+		return false
 	}
+	return true
+}
+
+// azPolicyAllows is the reference authoriser for the non-overlapping
+// grammar, over the policy texts the request has read.
+func azPolicyAllows(pols map[string][]azRule, in azIn) bool {
+	t := in.Tok
 	if t.Root {
-		return true, true
+		return true
 	}
+	rel := in.Path
 	full := "rec/" + rel
 	caps := map[string]bool{}
 	for _, pn := range t.Policies {
-		for _, r := range st.Policies[pn] {
+		for _, r := range pols[pn] {
 			if matchRule(r.Pattern, full) {
 				for _, c := range r.Caps {
 					caps[c] = true
@@ -151,15 +174,15 @@ func azAllowed(st azState, in azIn) (allowed bool, tokenLive bool) {
 		}
 	}
 	if caps["deny"] {
-		return false, true
+		return false
 	}
 	if !caps[capFor(in.Op)] {
-		return false, true
+		return false
 	}
 	if strings.HasPrefix(rel, "admin/") && !caps["sudo"] {
-		return false, true
+		return false
 	}
-	return true, true
+	return true
 }
 
 func azSteps(st azState, in azIn, out azOut) []azState {
@@ -191,29 +214,97 @@ func azSteps(st azState, in azIn, out azOut) []azState {
 		// outcomes are acceptable here (a bad token may still be refused)
 		return []azState{st}
 	}
-	allowed, live := azAllowed(st, in)
-	next := st
-	if live && in.Tok != nil {
-		if _, limited := st.Uses[in.Tok.Name]; limited {
-			next = st.clone()
-			next.Uses[in.Tok.Name]--
+	switch in.Phase {
+	case "tok":
+		n := st.clone()
+		n.InFl[in.Req] = &azInFl{Live: azTokenLive(st, in)}
+		return []azState{n}
+	case "pol":
+		f := st.InFl[in.Req]
+		if f == nil {
+			return nil // the token check comes first
 		}
+		n := st.clone()
+		nf := n.InFl[in.Req]
+		if nf.Pols == nil {
+			nf.Pols = map[string][]azRule{}
+		}
+		if _, dup := nf.Pols[in.Pol]; dup {
+			return nil
+		}
+		nf.Pols[in.Pol] = st.Policies[in.Pol]
+		if nf.Pols[in.Pol] == nil {
+			nf.Pols[in.Pol] = []azRule{}
+		}
+		return []azState{n}
 	}
+	// phase fin: the decision
+	f := st.InFl[in.Req]
+	if f == nil {
+		return nil
+	}
+	if in.Tok != nil && len(f.Pols) != len(uniq(in.Tok.Policies)) {
+		return nil // every policy is read before the decision
+	}
+	base := st.clone()
+	delete(base.InFl, in.Req)
+	if !f.Live {
+		if out.Allowed {
+			return nil
+		}
+		return []azState{base}
+	}
+	// a live token: use limit and policies
+	t := in.Tok
+	if n, limited := st.Uses[t.Name]; limited && n <= 0 {
+		if out.Allowed {
+			return nil
+		}
+		return []azState{base}
+	}
+	used := base
+	if _, limited := st.Uses[t.Name]; limited {
+		used = base.clone()
+		used.Uses[t.Name]--
+	}
+	allowed := azPolicyAllows(f.Pols, in)
 	if out.Faulted {
 		// an injected storage error may turn an allowed request into a
 		// refused one, never the other way round
 		if out.Allowed && !allowed {
 			return nil
 		}
-		if next.key() != st.key() {
-			return []azState{st, next} // the use may or may not have been consumed
+		if used.key() != base.key() {
+			return []azState{base, used} // the use may or may not have been consumed
 		}
-		return []azState{st}
+		return []azState{base}
 	}
-	if out.Allowed != allowed {
+	if out.Allowed && !allowed {
 		return nil
 	}
-	return []azState{next}
+	if !out.Allowed && allowed {
+		// acceptable only if a token-side condition turned false after the
+		// token check point (the entity is looked at after the token, the
+		// token again when its use is counted): revocation and disabling
+		// are monotone, so "false by now" is the test
+		if !azTokenLive(st, in) {
+			return []azState{used, base}
+		}
+		return nil
+	}
+	return []azState{used}
+}
+
+func uniq(xs []string) []string {
+	seen := map[string]bool{}
+	var out []string
+	for _, x := range xs {
+		if !seen[x] {
+			seen[x] = true
+			out = append(out, x)
+		}
+	}
+	return out
 }
 
 func runC02(rc *RunCtx) {
@@ -366,6 +457,27 @@ func runC02(rc *RunCtx) {
 		}
 		hist = append(hist, fmt.Sprintf("[%d,%d] c%d %s %s %s %s%s%s -> %+v", call, ret, client, in.Kind, tn, in.Op, in.Path, in.Policy, in.Target, out))
 	}
+	// a request enters the history once per check point (see azInFl)
+	recordRequest := func(client int, in azIn, out azOut, call, ret int) {
+		in.Req = fmt.Sprintf("q%d", call)
+		tn := "-"
+		if in.Tok != nil {
+			tn = in.Tok.Name
+		}
+		hist = append(hist, fmt.Sprintf("[%d,%d] c%d request %s %s %s -> %+v", call, ret, client, tn, in.Op, in.Path, out))
+		add := func(phase, pol string) {
+			x := in
+			x.Phase, x.Pol = phase, pol
+			ops = append(ops, porcupine.Operation{ClientId: client, Input: x, Call: int64(call), Output: out, Return: int64(ret)})
+		}
+		add("tok", "")
+		if in.Tok != nil {
+			for _, pn := range uniq(in.Tok.Policies) {
+				add("pol", pn)
+			}
+		}
+		add("fin", "")
+	}
 	stamp := func() int {
 		s.mu.Lock()
 		defer s.mu.Unlock()
@@ -450,7 +562,7 @@ func runC02(rc *RunCtx) {
 				in := azIn{Kind: "request", Tok: p.tok.az, Path: p.path, Op: p.op, Remote: p.remote}
 				s.mu.Lock()
 				faulted := s.Faults["err-na"] > faultsBefore
-				record(c, in, azOut{Allowed: allowed, Faulted: faulted}, call, ret)
+				recordRequest(c, in, azOut{Allowed: allowed, Faulted: faulted}, call, ret)
 				if !allowed && id != "" {
 					denied = append(denied, id)
 				}
@@ -559,7 +671,7 @@ func runC02(rc *RunCtx) {
 	}
 	nAllowed := 0
 	for _, o := range ops {
-		if in := o.Input.(azIn); in.Kind == "request" && o.Output.(azOut).Allowed {
+		if in := o.Input.(azIn); in.Kind == "request" && in.Phase == "fin" && o.Output.(azOut).Allowed {
 			nAllowed++
 		}
 	}
